@@ -114,6 +114,18 @@ def run(ctx, R):
                  "%d allocation result(s) of type Result<_, AllocError> consumed by `%s` at line(s) %s: running out of memory at this allocation panics or is "
                  "silently ignored instead of raising resource_error(memory)" % (len(lines), cls.replace("BAD:", "."), lines), F.where(fn))
         R.sample({"fn": short(fn), "consumer": cls, "lines": lines, "exception": bool(exc)})
+    # ---- a failed growth must leave the heap's capacity untouched, or the NEXT exhaustion is not an error but an
+    # out-of-bounds write (obligations computed by the C33 rule on InnerHeap::grow)
+    from . import c33
+    from .core import Result
+    sub = Result("C33")
+    c33.run(ctx, sub)
+    n_g = 0
+    for k, ok, d, w in sub.obligations:
+        if k.startswith("C33:grow:"):
+            n_g += 1
+            R.ob("C30:" + k[4:], ok, d, w)
+    R.floor("grow obligations", n_g, 3)
     # ---- RF4: resource errors are thrown in one place, from the pre-allocated term ---------------------------------
     tr = F.find_impl("MachineState", None, "throw_resource_error")
     th = F.hir(tr)
